@@ -10,8 +10,8 @@ use std::net::{IpAddr, Ipv4Addr, Ipv6Addr, SocketAddr};
 use std::sync::Arc;
 use std::time::Duration;
 
-const REMOTE_UFRAG: &str = "peerufrag01";
-const REMOTE_PWD: &str = "peer-password-0123456789ab";
+pub(super) const REMOTE_UFRAG: &str = "peerufrag01";
+pub(super) const REMOTE_PWD: &str = "peer-password-0123456789ab";
 
 fn mk_transport(prefer_srflx: bool, role: IceRole) -> IceTransport {
     let mut cfg = rustrtc::RtcConfiguration::default();
@@ -75,10 +75,10 @@ fn order_cases(run: &mut Run, rng: &mut Rng, rt: &tokio::runtime::Runtime, thoro
     }
 }
 
-struct Seen { from: SocketAddr, to: usize, bytes: Vec<u8> }
+pub(super) struct Seen { pub from: SocketAddr, pub to: usize, pub bytes: Vec<u8> }
 
 /// check one composed connectivity-check / nomination request with the reference crate
-fn check_request(run: &mut Run, case: &str, t: &IceTransport, role: IceRole, local_prio: u32, s: &Seen, expect_nominated: Option<bool>) -> bool {
+pub(super) fn check_request(run: &mut Run, case: &str, t: &IceTransport, role: IceRole, local_prio: u32, s: &Seen, expect_nominated: Option<bool>) -> bool {
     use stun::attributes::*;
     use stun::message::*;
     let lp = t.local_parameters();
